@@ -45,6 +45,14 @@ def suite_array(ctx, case):
     want = 'ERR rejected' if exp is None else 'ok ' + fl(exp)
     ctx.pred('array', case, impl == want, 'FromArray: got %s..., property demands %s...' % (impl[:40], want[:40]),
              key='C12:fromarray')
+    # the object as the library itself holds it: a deep copy, and the copy a System's omega table stores (what createPRISM evaluates)
+    import copy
+    o2 = pyPRISM.omega.FromArray(np.array(val, dtype=float), None if ks is None else np.array(ks, dtype=float))
+    tab = pyPRISM.PairTable(['A'], 'omega'); tab['A', 'A'] = o2
+    for how, obj in (('deepcopy', lambda: copy.deepcopy(o2)), ('System.omega table', lambda: tab['A', 'A']), ('deepcopy of the table entry', lambda: copy.deepcopy(tab)['A', 'A'])):
+        got = outcome(lambda: obj().calculate(kd))
+        ctx.corr('array', case, ctx.drv.ask(line), got, what='FromArray.calculate through ' + how)
+        ctx.pred('array', case, got == want, 'FromArray via %s: got %s..., property demands %s...' % (how, got[:40], want[:40]), key='C12:fromarray')
 
 def write_file(rows):
     fd, path = tempfile.mkstemp(prefix='vp_c12_', suffix='.txt', dir='/dev/shm' if os.path.isdir('/dev/shm') else None)
